@@ -9,6 +9,7 @@
 #include <string>
 #include <sys/stat.h>
 #include <sys/resource.h>
+#include <sys/time.h>
 #include <unistd.h>
 #include <ftw.h>
 #include <chrono>
@@ -56,6 +57,7 @@ extern "C" __attribute__((used, visibility("default"))) const char *__tsan_defau
 #define BGSIM_SANITIZED 0
 #endif
 
+static long g_watchdogCpuS = BGSIM_SANITIZED ? 120 : 45;
 static std::string g_dir;
 static int rmOne(const char *p, const struct stat *, int, struct FTW *) { return remove(p); }
 static void cleanup() {
@@ -90,9 +92,23 @@ static bool runOne(const sim::Plan &plan, gs::Env &env, sim::RunResult &res) {
         mkdir(g_dir.c_str(), 0700);
         env.dirty = false;
     }
-    alarm(BGSIM_SANITIZED ? 90 : 45); // watchdog: a run that hangs ends with SIGALRM and is reported as such
+    // watchdog: a run that hangs ends with a signal and is reported as such. The budget is CPU time of this process
+    // (ITIMER_PROF -> SIGPROF), so that a busy machine cannot fake a hang; a generous wall-clock alarm catches runs that
+    // block without using CPU (parked reader threads).
+    {
+        struct itimerval tv;
+        memset(&tv, 0, sizeof tv);
+        tv.it_value.tv_sec = g_watchdogCpuS;
+        setitimer(ITIMER_PROF, &tv, nullptr);
+        alarm((unsigned)(g_watchdogCpuS * 10));
+    }
     f(plan, res, env);
-    alarm(0);
+    {
+        struct itimerval tv;
+        memset(&tv, 0, sizeof tv);
+        setitimer(ITIMER_PROF, &tv, nullptr);
+        alarm(0);
+    }
     return !res.v.set;
 }
 
@@ -134,6 +150,7 @@ int main(int argc, char **argv) {
         else if (a == "--trace") trace = true;
         else if (a == "--wild") wild = true;
         else if (a == "--no-rlimit") noRlimit = true;
+        else if (a == "--watchdog-s") g_watchdogCpuS = std::stol(next());
         else if (a == "--deadline-ms") deadlineMs = std::stol(next());
         else { fprintf(stderr, "unknown argument %s\n", a.c_str()); return 2; }
     }
